@@ -65,6 +65,8 @@ def SOp.toOp : SOp → Op
   | .cap => .cap
   | .isEmpty => .isEmpty
   | .isFull => .isFull
+  | .pushW v _ => .push v      -- a wait with `maxWait ≥ 0` returns what `Push` returns
+  | .popW _ => .pop
 
 /-- One honest push/pop pair on an empty ring: both must succeed and the pop must return
 the value just pushed (`none` otherwise). -/
